@@ -218,6 +218,8 @@ def config_case(draw, bases=None, generated=True, min_end=None, sampling_focus=F
             delta = draw(st.one_of(st.sampled_from([0.3, 0.1, 0.25, 0.7, 1.0, 0.56789]), st.floats(1e-2, 2.0)))
             if small_sampling:
                 delta = round(draw(st.floats(0.003, 0.05)), 5)
+            elif sampling_focus and draw(st.integers(0, 5)) == 0:
+                delta = round(draw(st.floats(0.0015, 0.004)), 5)     # a thousand and more samples in one run
             edits.append((sec, "sampling_interval", repr(delta)))
             if sampling_focus and draw(st.booleans()):
                 edits.append((sec, "first_event_time_zero", "True"))
